@@ -80,7 +80,7 @@ claim("C08",
       "expressions x all centring translations (= the closed orbit, table lemma wy.orbit). The enclosing function is executed whole on sample positions with the periodic search under contract: parameters "
       "are reported only on the path where every test position matched, else ValueError; attributes set exactly for the free variables, values in [0,1); integer matrices make integer parameter shifts lattice shifts; "
       "has-free-parameters flag evaluated on every single letter, every pair of letters and all letters of every group; the orbit-map section (letters/orbit ids of the conventional atoms are those of their crystallographic orbit) is shared with C12/C07.",
-      "Real arithmetic for tolerances; _search_periodic_positions under an assumed contract (its cell.T metric is not examined); letters/orbits from spglib (A-SPG); the guard obligations run on sample shapes (4 positions), the per-entry obligations on all entries.",
+      "KNOWN FINDING (known_findings.json, DESIGN.md I.6b): for two-dimensional inputs the letters are assigned before the sheet is shifted and the cell shrunk, so representative + parameters are not atom positions of the conventional system handed out (obligation twod.*, refuted, reproduced on MoS2 and graphene monolayers; printed as KNOWN-FINDING, exit 0). Real arithmetic for tolerances; _search_periodic_positions under an assumed contract (its cell.T metric is not examined); letters/orbits from spglib (A-SPG); the guard obligations run on sample shapes (4 positions), the per-entry obligations on all entries.",
       "mechanically extracted blocks executed symbolically per table entry + z3; exhaustive", "DESIGN.md §3 C08")
 
 claim("C05",
